@@ -156,6 +156,12 @@ func (e *EDNS) ServeDNS(ctx context.Context, ch *middleware.Chain) {
 	if opt.Version() != 0 {
 		ednsErrorBadVersion.Inc()
 		opt.SetVersion(0)
+		// SetEdns0 has already put the clamped client subnet back on this
+		// OPT for the upstream query, and CancelWithRcode answers with the
+		// request's own additional section through the base writer — past
+		// the stripECS every other reply goes through. The rejection must
+		// not hand the client its subnet back either.
+		opt.Option = stripECS(opt.Option)
 
 		ch.CancelWithRcode(dns.RcodeBadVers, do)
 
